@@ -976,3 +976,404 @@ Theorem C02_sctx_nocc : forall x s a b, sctx x s a b -> nocc x b = true -> nocc 
 Proof. exact sctx_nocc. Qed.
 Check C02_sctx_nocc : forall x s a b, sctx x s a b -> nocc x b = true -> nocc x s = true.
 Print Assumptions C02_sctx_nocc.
+
+(* ======================================================================================================
+   C02ALL — the theorems above for the COMPLETE built-in set: EvalAll.binop_all o / builtin_all o (every row of the
+   regenerated built-in table and `^`, library behaviour as fields of the oracle record o), the evaluator the
+   ALL / TEXT-EVAL streams run, for EVERY oracle o (proofs/C02AllOps.v, proofs/C02AllThms.v).
+
+   Hypotheses on o: NONE for "no dangling cell" (ops_wf), "no mention" (ops_nm), "old cells untouched"; for the
+   commutation with renamings of cell indices (store-extension invariance, eval-twice, let-abstraction,
+   let-program) exactly one:  lam_str_blind o  — the text oracle for function values (the only oracle field that
+   is applied to VALUES: the captured scope) is blind to cell indices.  It holds of every lookup-table oracle
+   of AllRun.v ([C02_lam_str_blind_tables]) and is necessary ([C02_ops_commute_all_needs_blind_refuted]).
+
+   THE CLOCK: time_now() is the constant field o_now — one oracle record is one reading of the clock, so the
+   eval-twice theorems below speak about two evaluations that observe the SAME clock reading.  With the clock
+   advancing between the two evaluations the statement is false ([C02_eval_twice_across_clock_refuted]).
+   ====================================================================================================== *)
+Require Import Blots.EvalAll Blots.proofs.C02AllOps Blots.proofs.C02AllThms.
+Require Blots.AllRun.
+
+Definition C02_eval_twice_across_clock_full : Prop := eval_twice_across_clock_stmt.
+(* the three hypotheses of the generic theorems, for the complete operator table / built-in set, EVERY oracle *)
+Theorem C02_ops_wf_all : forall o, ops_wf (binop_all o) (builtin_all o).
+Proof. exact ops_wf_all. Qed.
+Check C02_ops_wf_all : forall o, ops_wf (binop_all o) (builtin_all o).
+Print Assumptions C02_ops_wf_all.
+
+Theorem C02_ops_nm_all : forall o, ops_nm (binop_all o) (builtin_all o).
+Proof. exact ops_nm_all. Qed.
+Check C02_ops_nm_all : forall o, ops_nm (binop_all o) (builtin_all o).
+Print Assumptions C02_ops_nm_all.
+
+Theorem C02_ops_commute_all : forall o, lam_str_blind o -> ops_commute (binop_all o) (builtin_all o).
+Proof. exact ops_commute_all. Qed.
+Check C02_ops_commute_all : forall o, lam_str_blind o -> ops_commute (binop_all o) (builtin_all o).
+Print Assumptions C02_ops_commute_all.
+
+(* the hypothesis holds of EVERY lookup-table oracle the ALL / TEXT-EVAL streams run (AllRun.lam_of ignores the scope) *)
+Theorem C02_lam_str_blind_tables : forall T, lam_str_blind (AllRun.oracle_of T).
+Proof. exact lam_str_blind_tables. Qed.
+Check C02_lam_str_blind_tables : forall T, lam_str_blind (AllRun.oracle_of T).
+Print Assumptions C02_lam_str_blind_tables.
+
+(* no hypothesis on the oracle *)
+Theorem C02_old_cells_untouched_all : forall o release d c e r c',
+  evalD release (binop_all o) (builtin_all o) d c e = (r, c') -> store_keep (fst c) (fst c').
+Proof. exact old_cells_untouched_all. Qed.
+Check C02_old_cells_untouched_all : forall o release d c e r c',
+  evalD release (binop_all o) (builtin_all o) d c e = (r, c') -> store_keep (fst c) (fst c').
+Print Assumptions C02_old_cells_untouched_all.
+
+Theorem C02_cfg_wf_preserved_all : forall o release d e c r c',
+  cfg_wf c = true -> evalD release (binop_all o) (builtin_all o) d c e = (r, c') ->
+  cfg_wf c' = true /\ length (fst c) <= length (fst c') /\ (forall v, r = Ok v -> ids_lt (length (fst c')) v = true).
+Proof. exact evalD_cfg_wf_all. Qed.
+Check C02_cfg_wf_preserved_all : forall o release d e c r c',
+  cfg_wf c = true -> evalD release (binop_all o) (builtin_all o) d c e = (r, c') ->
+  cfg_wf c' = true /\ length (fst c) <= length (fst c') /\ (forall v, r = Ok v -> ids_lt (length (fst c')) v = true).
+Print Assumptions C02_cfg_wf_preserved_all.
+
+Theorem C02_cfg_wf_after_any_program_all : forall o release d0 inputs prog,
+  frame_lt 0 inputs = true ->
+  cfg_wf (s_cfg (fst (run (evalD release (binop_all o) (builtin_all o) d0) (init_session inputs) prog))) = true /\
+  forall stop, Forall (fun rc => cfg_wf (snd rc) = true)
+                      (run_trace (evalD release (binop_all o) (builtin_all o) d0) stop (init_session inputs) prog).
+Proof. intros o release d0 inputs prog Hi; split; [exact (program_cfg_wf_all o release d0 inputs prog Hi)|intros stop; exact (session_cfg_wf_all o release d0 stop inputs prog Hi)]. Qed.
+Check C02_cfg_wf_after_any_program_all : forall o release d0 inputs prog,
+  frame_lt 0 inputs = true ->
+  cfg_wf (s_cfg (fst (run (evalD release (binop_all o) (builtin_all o) d0) (init_session inputs) prog))) = true /\
+  forall stop, Forall (fun rc => cfg_wf (snd rc) = true)
+                      (run_trace (evalD release (binop_all o) (builtin_all o) d0) stop (init_session inputs) prog).
+Print Assumptions C02_cfg_wf_after_any_program_all.
+
+Theorem C02_weakening_all : forall o release d x w e st k f fr r st' fr',
+  String.eqb "inputs" x = false ->
+  nocc x e = true -> no_assign e = true -> frames_nm x ((k, f) :: fr) = true -> vnm x w = true ->
+  evalD release (binop_all o) (builtin_all o) d (st, (k, f) :: fr) e = (r, (st', fr')) ->
+  fr' = (k, f) :: fr /\
+  evalD release (binop_all o) (builtin_all o) d (st, (k, (x, w) :: f) :: fr) e = (r, (st', (k, (x, w) :: f) :: fr)).
+Proof. exact weakening_all. Qed.
+Check C02_weakening_all : forall o release d x w e st k f fr r st' fr',
+  String.eqb "inputs" x = false ->
+  nocc x e = true -> no_assign e = true -> frames_nm x ((k, f) :: fr) = true -> vnm x w = true ->
+  evalD release (binop_all o) (builtin_all o) d (st, (k, f) :: fr) e = (r, (st', fr')) ->
+  fr' = (k, f) :: fr /\
+  evalD release (binop_all o) (builtin_all o) d (st, (k, (x, w) :: f) :: fr) e = (r, (st', (k, (x, w) :: f) :: fr)).
+Print Assumptions C02_weakening_all.
+
+(* under the blindness of the text oracle *)
+Theorem C02_store_extension_invariance_all : forall o, lam_str_blind o ->
+  forall release rho, (forall a b : nat, rho a = rho b -> a = b) ->
+  forall d e sA sB fr r sA' fr',
+    sinv rho sA sB -> evalD release (binop_all o) (builtin_all o) d (sA, fr) e = (r, (sA', fr')) ->
+    exists sB', evalD release (binop_all o) (builtin_all o) d (sB, renFr rho fr) e = (oren rho r, (sB', renFr rho fr')) /\
+                sinv rho sA' sB'.
+Proof. exact store_extension_invariance_all. Qed.
+Check C02_store_extension_invariance_all : forall o, lam_str_blind o ->
+  forall release rho, (forall a b : nat, rho a = rho b -> a = b) ->
+  forall d e sA sB fr r sA' fr',
+    sinv rho sA sB -> evalD release (binop_all o) (builtin_all o) d (sA, fr) e = (r, (sA', fr')) ->
+    exists sB', evalD release (binop_all o) (builtin_all o) d (sB, renFr rho fr) e = (oren rho r, (sB', renFr rho fr')) /\
+                sinv rho sA' sB'.
+Print Assumptions C02_store_extension_invariance_all.
+
+Theorem C02_eval_twice_exact_all : forall o, lam_str_blind o ->
+  forall release d e st fr r1 st1 fr1,
+  no_assign e = true -> frames_lt (length st) fr = true ->
+  evalD release (binop_all o) (builtin_all o) d (st, fr) e = (r1, (st1, fr1)) ->
+  fr1 = fr /\
+  exists st2, evalD release (binop_all o) (builtin_all o) d (st1, fr) e =
+                (oren (shift (length st) (length st1 - length st)) r1, (st2, fr)) /\
+              sinv (shift (length st) (length st1 - length st)) st1 st2.
+Proof. exact eval_twice_exact_all. Qed.
+Check C02_eval_twice_exact_all : forall o, lam_str_blind o ->
+  forall release d e st fr r1 st1 fr1,
+  no_assign e = true -> frames_lt (length st) fr = true ->
+  evalD release (binop_all o) (builtin_all o) d (st, fr) e = (r1, (st1, fr1)) ->
+  fr1 = fr /\
+  exists st2, evalD release (binop_all o) (builtin_all o) d (st1, fr) e =
+                (oren (shift (length st) (length st1 - length st)) r1, (st2, fr)) /\
+              sinv (shift (length st) (length st1 - length st)) st1 st2.
+Print Assumptions C02_eval_twice_exact_all.
+
+Theorem C02_eval_twice_all : forall o, lam_str_blind o ->
+  forall release d e c r1 c1 r2 c2,
+  no_assign e = true -> cfg_wf c = true ->
+  evalD release (binop_all o) (builtin_all o) d c e = (r1, c1) ->
+  evalD release (binop_all o) (builtin_all o) d c1 e = (r2, c2) ->
+  osame r1 r2 /\ snd c2 = snd c /\ snd c1 = snd c.
+Proof. exact eval_twice_all. Qed.
+Check C02_eval_twice_all : forall o, lam_str_blind o ->
+  forall release d e c r1 c1 r2 c2,
+  no_assign e = true -> cfg_wf c = true ->
+  evalD release (binop_all o) (builtin_all o) d c e = (r1, c1) ->
+  evalD release (binop_all o) (builtin_all o) d c1 e = (r2, c2) ->
+  osame r1 r2 /\ snd c2 = snd c /\ snd c1 = snd c.
+Print Assumptions C02_eval_twice_all.
+
+Theorem C02_eval_twice_equals_all : forall o, lam_str_blind o ->
+  forall release d e c v1 c1 v2 c2,
+  no_assign e = true -> cfg_wf c = true ->
+  evalD release (binop_all o) (builtin_all o) d c e = (Ok v1, c1) ->
+  evalD release (binop_all o) (builtin_all o) d c1 e = (Ok v2, c2) ->
+  equals v1 v2 = equals v1 v1.
+Proof. exact eval_twice_equals_all. Qed.
+Check C02_eval_twice_equals_all : forall o, lam_str_blind o ->
+  forall release d e c v1 c1 v2 c2,
+  no_assign e = true -> cfg_wf c = true ->
+  evalD release (binop_all o) (builtin_all o) d c e = (Ok v1, c1) ->
+  evalD release (binop_all o) (builtin_all o) d c1 e = (Ok v2, c2) ->
+  equals v1 v2 = equals v1 v1.
+Print Assumptions C02_eval_twice_equals_all.
+
+Theorem C02_eval_twice_after_any_program_all : forall o, lam_str_blind o ->
+  forall release d0 d inputs prog e r1 c1 r2 c2,
+  frame_lt 0 inputs = true -> no_assign e = true ->
+  let c := s_cfg (fst (run (evalD release (binop_all o) (builtin_all o) d0) (init_session inputs) prog)) in
+  evalD release (binop_all o) (builtin_all o) d c e = (r1, c1) ->
+  evalD release (binop_all o) (builtin_all o) d c1 e = (r2, c2) ->
+  osame r1 r2 /\ snd c2 = snd c /\ snd c1 = snd c.
+Proof. exact eval_twice_after_any_program_all. Qed.
+Check C02_eval_twice_after_any_program_all : forall o, lam_str_blind o ->
+  forall release d0 d inputs prog e r1 c1 r2 c2,
+  frame_lt 0 inputs = true -> no_assign e = true ->
+  let c := s_cfg (fst (run (evalD release (binop_all o) (builtin_all o) d0) (init_session inputs) prog)) in
+  evalD release (binop_all o) (builtin_all o) d c e = (r1, c1) ->
+  evalD release (binop_all o) (builtin_all o) d c1 e = (r2, c2) ->
+  osame r1 r2 /\ snd c2 = snd c /\ snd c1 = snd c.
+Print Assumptions C02_eval_twice_after_any_program_all.
+
+Theorem C02_let_abstraction_seq_partial_all : forall o, lam_str_blind o ->
+  forall release d x s st st1 fr v eA eB rA cA rB cB,
+  frames_lt (length st) fr = true ->
+  evalD release (binop_all o) (builtin_all o) d (st, fr) (EId x) = (Ok v, (st, fr)) ->
+  evalD release (binop_all o) (builtin_all o) d (st, fr) s = (Ok v, (st1, fr)) ->
+  cell_free v = true ->
+  sctx x s eA eB ->
+  evalD release (binop_all o) (builtin_all o) d (st, fr) eA = (rA, cA) ->
+  evalD release (binop_all o) (builtin_all o) d (st, fr) eB = (rB, cB) ->
+  osame rA rB.
+Proof. exact let_abstraction_seq_all. Qed.
+Check C02_let_abstraction_seq_partial_all : forall o, lam_str_blind o ->
+  forall release d x s st st1 fr v eA eB rA cA rB cB,
+  frames_lt (length st) fr = true ->
+  evalD release (binop_all o) (builtin_all o) d (st, fr) (EId x) = (Ok v, (st, fr)) ->
+  evalD release (binop_all o) (builtin_all o) d (st, fr) s = (Ok v, (st1, fr)) ->
+  cell_free v = true ->
+  sctx x s eA eB ->
+  evalD release (binop_all o) (builtin_all o) d (st, fr) eA = (rA, cA) ->
+  evalD release (binop_all o) (builtin_all o) d (st, fr) eB = (rB, cB) ->
+  osame rA rB.
+Print Assumptions C02_let_abstraction_seq_partial_all.
+
+Theorem C02_let_abstraction_seq_multi_partial_all : forall o, lam_str_blind o ->
+  forall release d x s st st1 fr v eA eB,
+  frames_lt (length st) fr = true ->
+  evalD release (binop_all o) (builtin_all o) d (st, fr) (EId x) = (Ok v, (st, fr)) ->
+  evalD release (binop_all o) (builtin_all o) d (st, fr) s = (Ok v, (st1, fr)) ->
+  cell_free v = true ->
+  sctxs x s eA eB ->
+  osame (fst (evalD release (binop_all o) (builtin_all o) d (st, fr) eA)) (fst (evalD release (binop_all o) (builtin_all o) d (st, fr) eB)).
+Proof. exact let_abstraction_seq_multi_all. Qed.
+Check C02_let_abstraction_seq_multi_partial_all : forall o, lam_str_blind o ->
+  forall release d x s st st1 fr v eA eB,
+  frames_lt (length st) fr = true ->
+  evalD release (binop_all o) (builtin_all o) d (st, fr) (EId x) = (Ok v, (st, fr)) ->
+  evalD release (binop_all o) (builtin_all o) d (st, fr) s = (Ok v, (st1, fr)) ->
+  cell_free v = true ->
+  sctxs x s eA eB ->
+  osame (fst (evalD release (binop_all o) (builtin_all o) d (st, fr) eA)) (fst (evalD release (binop_all o) (builtin_all o) d (st, fr) eB)).
+Print Assumptions C02_let_abstraction_seq_multi_partial_all.
+
+Theorem C02_let_program_all : forall o, lam_str_blind o ->
+  forall release d x s C_x C_s st fr v c1 rA cA rB cB,
+  frames_lt (length st) fr = true -> no_assign s = true -> no_assign C_s = true ->
+  sctx x s C_x C_s ->
+  nocc x s = true -> nocc x C_s = true -> frames_nm x fr = true ->
+  evalD release (binop_all o) (builtin_all o) d (st, fr) (EAssign x s) = (Ok v, c1) ->
+  cell_free v = true ->
+  evalD release (binop_all o) (builtin_all o) d c1 C_x = (rA, cA) ->
+  evalD release (binop_all o) (builtin_all o) d (st, fr) C_s = (rB, cB) ->
+  osame rA rB.
+Proof. exact let_program_all. Qed.
+Check C02_let_program_all : forall o, lam_str_blind o ->
+  forall release d x s C_x C_s st fr v c1 rA cA rB cB,
+  frames_lt (length st) fr = true -> no_assign s = true -> no_assign C_s = true ->
+  sctx x s C_x C_s ->
+  nocc x s = true -> nocc x C_s = true -> frames_nm x fr = true ->
+  evalD release (binop_all o) (builtin_all o) d (st, fr) (EAssign x s) = (Ok v, c1) ->
+  cell_free v = true ->
+  evalD release (binop_all o) (builtin_all o) d c1 C_x = (rA, cA) ->
+  evalD release (binop_all o) (builtin_all o) d (st, fr) C_s = (rB, cB) ->
+  osame rA rB.
+Print Assumptions C02_let_program_all.
+
+Theorem C02_let_program_multi_all : forall o, lam_str_blind o ->
+  forall release d x s C_x C_s st fr v c1 rA cA rB cB,
+  frames_lt (length st) fr = true -> no_assign s = true -> no_assign C_s = true ->
+  sctxs x s C_x C_s ->
+  nocc x s = true -> nocc x C_s = true -> frames_nm x fr = true ->
+  evalD release (binop_all o) (builtin_all o) d (st, fr) (EAssign x s) = (Ok v, c1) ->
+  cell_free v = true ->
+  evalD release (binop_all o) (builtin_all o) d c1 C_x = (rA, cA) ->
+  evalD release (binop_all o) (builtin_all o) d (st, fr) C_s = (rB, cB) ->
+  osame rA rB.
+Proof. exact let_program_multi_all. Qed.
+Check C02_let_program_multi_all : forall o, lam_str_blind o ->
+  forall release d x s C_x C_s st fr v c1 rA cA rB cB,
+  frames_lt (length st) fr = true -> no_assign s = true -> no_assign C_s = true ->
+  sctxs x s C_x C_s ->
+  nocc x s = true -> nocc x C_s = true -> frames_nm x fr = true ->
+  evalD release (binop_all o) (builtin_all o) d (st, fr) (EAssign x s) = (Ok v, c1) ->
+  cell_free v = true ->
+  evalD release (binop_all o) (builtin_all o) d c1 C_x = (rA, cA) ->
+  evalD release (binop_all o) (builtin_all o) d (st, fr) C_s = (rB, cB) ->
+  osame rA rB.
+Print Assumptions C02_let_program_multi_all.
+
+(* the hypothesis on the text oracle cannot be dropped: an oracle that prints the cell index of a captured function
+   makes to_string observe a renaming (it is not blind: [oracle_peeking_not_blind]) *)
+Theorem C02_ops_commute_all_needs_blind_refuted : ~ (forall o, ops_commute (binop_all o) (builtin_all o)).
+Proof. exact ops_commute_all_needs_blind. Qed.
+Check C02_ops_commute_all_needs_blind_refuted : ~ (forall o, ops_commute (binop_all o) (builtin_all o)).
+Print Assumptions C02_ops_commute_all_needs_blind_refuted.
+
+(* refuted by `time_now()`: the documented behaviour of a clock, not a defect; the exclusion the model forces on the
+   eval-twice theorems above is exactly "both evaluations under the same oracle record (the same clock reading)" *)
+Theorem C02_eval_twice_across_clock_refuted : ~ C02_eval_twice_across_clock_full.
+Proof. exact eval_twice_across_clock_refuted. Qed.
+Check C02_eval_twice_across_clock_refuted : ~ C02_eval_twice_across_clock_full.
+Print Assumptions C02_eval_twice_across_clock_refuted.
+
+(* ---- the hypotheses are satisfiable on a program that uses the NEW arms: to_string / format / join over function
+   values (one of them capturing another function: the case the blindness hypothesis is about), libm, `^`,
+   time_now, print — under the trivial oracle (blind: [lam_str_blind_trivial]) ---- *)
+Definition exa_cfg : cfg :=
+  ([Some "f"], [(FOwned, [("l", VList [VNum (num_of_Z 3); VNum (num_of_Z 1)]); ("f", ex_f)])]).
+Definition exa_expr : expr :=
+  EList [Cm [] (ECall (EBuiltin B_to_string) [ELam [AReq "k"] (ECall (EId "f") [EId "k"])]) None;
+         Cm [] (ECall (EBuiltin B_format) [EStr "{} and {}"; EId "f"; EId "l"]) None;
+         Cm [] (ECall (EBuiltin B_join) [EList [Cm [] (EId "f") None; Cm [] (ELam [AReq "z"] (EId "z")) None]; EStr "-"]) None;
+         Cm [] (ECall (EBuiltin B_map) [EId "l"; ELam [AReq "q"] (EBin Power (ECall (EBuiltin B_sin) [EId "q"]) (ENum (num_of_Z 2)))]) None;
+         Cm [] (ECall (EBuiltin B_time_now) []) None;
+         Cm [] (ECall (EBuiltin B_print) [ELam [AReq "u"] (EId "u")]) None;
+         Cm [] (ELam [AReq "w"] (EId "w")) None].
+Example C02_eval_twice_all_example :
+  lam_str_blind oracle_trivial /\ no_assign exa_expr = true /\ cfg_wf exa_cfg = true /\
+  let r1 := evalD true (binop_all oracle_trivial) (builtin_all oracle_trivial) 6 exa_cfg exa_expr in
+  let r2 := evalD true (binop_all oracle_trivial) (builtin_all oracle_trivial) 6 (snd r1) exa_expr in
+  is_ok (fst r1) = true /\ length (fst (snd r1)) = 6 /\ length (fst (snd r2)) = 11 /\
+  fst r1 <> fst r2 /\ osame (fst r1) (fst r2).
+Proof.
+  split; [exact lam_str_blind_trivial|split; [reflexivity|split; [reflexivity|]]].
+  vm_compute. repeat split. intros H; discriminate H.
+Qed.
+
+(* ---- the clock, positively (proofs/C02AllClock.v) ---- *)
+Require Import Blots.proofs.C02AllClock.
+
+(* same_but_clock o o' := builtin_all o' and builtin_all o agree on every built-in other than time_now, binop_all o' and
+   binop_all o agree everywhere: o_now is read by the arm of time_now and by nothing else *)
+Theorem C02_clock_read_by_one_arm : forall o t, same_but_clock o (with_now o t).
+Proof. exact same_but_clock_with_now. Qed.
+Check C02_clock_read_by_one_arm : forall o t, same_but_clock o (with_now o t).
+Print Assumptions C02_clock_read_by_one_arm.
+
+(* Unm.rle x y := fst x = Unmodelled \/ x = y.  Generic in two pairs of dispatchers at the same depth: if the left pair is
+   pointwise 'Unmodelled, or equal' to the right pair (callbacks related the same way), so are the evaluations — every
+   expression form, FunctionDef::call, every depth: an Unmodelled outcome of an operator / built-in is never swallowed *)
+Theorem C02_unmodelled_never_swallowed : forall release bi1 bi2 bu1 bu2,
+  (forall cb1 cb2, Unm.cb_le cb1 cb2 -> forall op l r st, Unm.rle (bi1 cb1 op l r st) (bi2 cb2 op l r st)) ->
+  (forall cb1 cb2, Unm.cb_le cb1 cb2 -> forall b args st, Unm.rle (bu1 cb1 b args st) (bu2 cb2 b args st)) ->
+  forall d c e, Unm.rle (evalD release bi1 bu1 d c e) (evalD release bi2 bu2 d c e).
+Proof. exact Unm.evalD_le2. Qed.
+Check C02_unmodelled_never_swallowed : forall release bi1 bi2 bu1 bu2,
+  (forall cb1 cb2, Unm.cb_le cb1 cb2 -> forall op l r st, Unm.rle (bi1 cb1 op l r st) (bi2 cb2 op l r st)) ->
+  (forall cb1 cb2, Unm.cb_le cb1 cb2 -> forall b args st, Unm.rle (bu1 cb1 b args st) (bu2 cb2 b args st)) ->
+  forall d c e, Unm.rle (evalD release bi1 bu1 d c e) (evalD release bi2 bu2 d c e).
+Print Assumptions C02_unmodelled_never_swallowed.
+
+(* builtin_noclock o = builtin_all o with the arm of time_now POISONED (Unmodelled): an evaluation that does not end in
+   Unmodelled under it (= never calls time_now, by the theorem above) has the same outcome, store and scope chain under
+   every clock reading *)
+Theorem C02_eval_same_under_every_clock : forall o t release d c e,
+  fst (evalD release (binop_all o) (builtin_noclock o) d c e) <> Unmodelled ->
+  evalD release (binop_all (with_now o t)) (builtin_all (with_now o t)) d c e =
+  evalD release (binop_all o) (builtin_all o) d c e.
+Proof. exact eval_any_clock. Qed.
+Check C02_eval_same_under_every_clock : forall o t release d c e,
+  fst (evalD release (binop_all o) (builtin_noclock o) d c e) <> Unmodelled ->
+  evalD release (binop_all (with_now o t)) (builtin_all (with_now o t)) d c e =
+  evalD release (binop_all o) (builtin_all o) d c e.
+Print Assumptions C02_eval_same_under_every_clock.
+
+(* EVAL-TWICE WITH THE CLOCK ADVANCING between the two evaluations: [C02_eval_twice_across_clock_full] with exactly the
+   exclusion its refutation forces — the second evaluation does not read the clock *)
+Theorem C02_eval_twice_across_clock_noclock : forall o t, lam_str_blind o ->
+  forall release d e c r1 c1 r2 c2,
+    no_assign e = true -> cfg_wf c = true ->
+    evalD release (binop_all o) (builtin_all o) d c e = (r1, c1) ->
+    fst (evalD release (binop_all o) (builtin_noclock o) d c1 e) <> Unmodelled ->
+    evalD release (binop_all (with_now o t)) (builtin_all (with_now o t)) d c1 e = (r2, c2) ->
+    osame r1 r2 /\ snd c2 = snd c /\ snd c1 = snd c.
+Proof. exact eval_twice_across_clock_noclock. Qed.
+Check C02_eval_twice_across_clock_noclock : forall o t, lam_str_blind o ->
+  forall release d e c r1 c1 r2 c2,
+    no_assign e = true -> cfg_wf c = true ->
+    evalD release (binop_all o) (builtin_all o) d c e = (r1, c1) ->
+    fst (evalD release (binop_all o) (builtin_noclock o) d c1 e) <> Unmodelled ->
+    evalD release (binop_all (with_now o t)) (builtin_all (with_now o t)) d c1 e = (r2, c2) ->
+    osame r1 r2 /\ snd c2 = snd c /\ snd c1 = snd c.
+Print Assumptions C02_eval_twice_across_clock_noclock.
+
+(* the exclusion holds of a program using libm, to_string of a function and a closure (first and second evaluation),
+   and fails for `time_now()` — the witness of [C02_eval_twice_across_clock_refuted] *)
+Example C02_noclock_exclusion_example :
+  let ev := evalD true (binop_all oracle_trivial) (builtin_noclock oracle_trivial) 5 in
+  fst (ev clock_cfg noclock_expr) <> Unmodelled /\
+  fst (ev (snd (evalD true (binop_all oracle_trivial) (builtin_all oracle_trivial) 5 clock_cfg noclock_expr)) noclock_expr)
+    <> Unmodelled /\
+  fst (ev clock_cfg clock_expr) = Unmodelled.
+Proof. exact noclock_exclusion_example. Qed.
+
+(* a by-product of [C02_unmodelled_never_swallowed]: AllExtends.v's conservative extension lifted from the dispatchers to
+   the EVALUATOR — a program on which the evaluator of the EVAL streams does not end in Unmodelled is computed
+   identically (outcome, store, scope chain) by the evaluator with every built-in, for every oracle; so every `_fullbi`
+   theorem above about such a program is one about eval_all, with no hypothesis on the oracle *)
+Theorem C02_eval_all_extends_full : forall o release d c e,
+  fst (evalD release binop_impl builtin_full d c e) <> Unmodelled ->
+  evalD release (binop_all o) (builtin_all o) d c e = evalD release binop_impl builtin_full d c e.
+Proof. exact evalD_all_extends_full. Qed.
+Check C02_eval_all_extends_full : forall o release d c e,
+  fst (evalD release binop_impl builtin_full d c e) <> Unmodelled ->
+  evalD release (binop_all o) (builtin_all o) d c e = evalD release binop_impl builtin_full d c e.
+Print Assumptions C02_eval_all_extends_full.
+
+(* the two-statement law (one or several occurrences: sctx is contained in sctxs, [C02_sctx_is_sctxs]) after ANY program
+   prefix from function-free inputs, complete built-in set, every blind oracle: no hypothesis on the configuration *)
+Theorem C02_let_program_multi_after_any_prefix_all : forall o, lam_str_blind o ->
+  forall release d0 d inputs prog x s C_x C_s v c1 rA cA rB cB,
+  frame_lt 0 inputs = true ->
+  let c := s_cfg (fst (run (evalD release (binop_all o) (builtin_all o) d0) (init_session inputs) prog)) in
+  no_assign s = true -> no_assign C_s = true -> sctxs x s C_x C_s ->
+  nocc x s = true -> nocc x C_s = true -> frames_nm x (snd c) = true ->
+  evalD release (binop_all o) (builtin_all o) d c (EAssign x s) = (Ok v, c1) ->
+  cell_free v = true ->
+  evalD release (binop_all o) (builtin_all o) d c1 C_x = (rA, cA) ->
+  evalD release (binop_all o) (builtin_all o) d c C_s = (rB, cB) ->
+  osame rA rB.
+Proof. exact let_program_multi_after_prefix_all. Qed.
+Check C02_let_program_multi_after_any_prefix_all : forall o, lam_str_blind o ->
+  forall release d0 d inputs prog x s C_x C_s v c1 rA cA rB cB,
+  frame_lt 0 inputs = true ->
+  let c := s_cfg (fst (run (evalD release (binop_all o) (builtin_all o) d0) (init_session inputs) prog)) in
+  no_assign s = true -> no_assign C_s = true -> sctxs x s C_x C_s ->
+  nocc x s = true -> nocc x C_s = true -> frames_nm x (snd c) = true ->
+  evalD release (binop_all o) (builtin_all o) d c (EAssign x s) = (Ok v, c1) ->
+  cell_free v = true ->
+  evalD release (binop_all o) (builtin_all o) d c1 C_x = (rA, cA) ->
+  evalD release (binop_all o) (builtin_all o) d c C_s = (rB, cB) ->
+  osame rA rB.
+Print Assumptions C02_let_program_multi_after_any_prefix_all.
